@@ -9,7 +9,7 @@ Line protocol:
   `errclass <handler|raw> <kind>`  → `pairing|connection|other` (the error_handler mapping)
   `runpin <script> <expected> <typed>` → as `run`, the fault derived from the two PIN values
   `dmapseq <op,op,...>`  ops `p<n>` pin(n) | `r<n>` request with the code of PIN n | `rx` request with a
-       code of no PIN | `f` finish  → `<paired> <stored> <answer bits of the requests|->`
+       code of no PIN | `b<n>`/`bx` the same with an answer that cannot be encoded | `f` finish  → `<paired> <stored> <answer bits of the requests|->`
   `runinit <script> <idx|-> <kind|-> <a> <b>` → `<outcome> <svc> <settings> <paired>` with the
        credential VALUES held afterwards (0 none, 1 A, 2 B, 9 freshly paired) from initial (a, b)
 -/
@@ -66,6 +66,8 @@ def handle (_ : Unit) (ws : List String) : Unit × String :=
       else if w == "rx" then some (DOp.request none)
       else if w.startsWith "p" then (w.drop 1).toNat?.map DOp.pin
       else if w.startsWith "r" then (w.drop 1).toNat?.map (fun n => DOp.request (some n))
+      else if w == "bx" then some (DOp.badReply none)
+      else if w.startsWith "b" then (w.drop 1).toNat?.map (fun n => DOp.badReply (some n))
       else none
     match (ops.splitOn ",").mapM parse with
     | some l =>
